@@ -262,10 +262,28 @@ where
                                         if file > files.len() as u64 {
                                             return Err(write::ConvertError::InvalidFileIndex);
                                         }
-                                        if file == 0 && program.version() <= 4 {
-                                            return Err(write::ConvertError::InvalidFileIndex);
+                                        if file == 0 {
+                                            if program.version() <= 4 {
+                                                return Err(write::ConvertError::InvalidFileIndex);
+                                            }
+                                            // DWARF 5: index 0 is the primary source file,
+                                            // which `files` does not hold. Name it through an
+                                            // explicit entry (`add_file` returns the existing
+                                            // id when called again).
+                                            match from_program.header().file(0) {
+                                                Some(primary) => {
+                                                    let name =
+                                                        self.convert_line_string(primary.path_name())?;
+                                                    let dir = program.default_directory();
+                                                    program.add_file(name, dir, None)
+                                                }
+                                                None => {
+                                                    return Err(write::ConvertError::InvalidFileIndex)
+                                                }
+                                            }
+                                        } else {
+                                            files[(file - 1) as usize]
                                         }
-                                        files[(file - 1) as usize]
                                     };
                                     program.row().line = match from_row.line() {
                                         Some(line) => line.get(),
